@@ -173,9 +173,13 @@ def explore(ctx, strategy, body, n_examples, salt=0, shrink_budget_s=None):
     kf = KnownFindings.load()
     if shrink_budget_s is None:
         shrink_budget_s = 20 if ctx.quick else 120
-    for bucket, v in by_bucket.items():
+    shrunk = 0
+    for bucket, v in sorted(by_bucket.items()):
         if kf.match(ctx.prop, bucket):
             continue
+        shrunk += 1
+        if shrunk > (2 if ctx.quick else 6):
+            break           # the remaining buckets keep their smallest collected (unshrunk) example
         try:
             small = _shrink(strategy, body, bucket, hs, n_examples, shrink_budget_s)
         except Exception:
